@@ -542,6 +542,11 @@ pub fn run(cfg: &Cfg, rep: &mut Report) {
                 fail(r, "function-result".into(), format!("function {} result {:?}, declared type index {}", fi, f.result, type_index[ret]));
                 return;
             }
+            // each function keeps its blocks in a storage of its own: its first block is that storage's first value
+            if !blocks.is_empty() && f.start_block.index() != 0 {
+                fail(r, "start-block".into(), format!("function {}: start block token {:?}, the first block of a function's own storage has index 0", fi, f.start_block));
+                return;
+            }
             let items = match storage_items(&format!("{:?}", f.blocks)) {
                 Ok(i) => i,
                 Err(e) => {
